@@ -69,7 +69,12 @@ def work(hists, cfg, open_ids):
         ops = H.build(hist)
         part.count("states_evaluated")
         last = hist["steps"][-1]["op"] if hist["steps"] else "table"
-        ordered = last in ("select_columns", "table")
+        # the column order is defined by a select_columns (or the table) and inherited through steps that
+        # only filter or sort rows
+        tail = [st["op"] for st in hist["steps"]]
+        while tail and tail[-1] in ("order_rows", "select_rows"):
+            tail.pop()
+        ordered = (not tail) or tail[-1] == "select_columns"
         g = backends.gen_sql(ops)
         gp = backends.gen_sql(ops, model=pg)
         tabs = H.hist_tables(hist)
